@@ -306,7 +306,9 @@ func runC10(cx *CheckCtx) {
 						okF = false
 					}
 				}
-				if k, isRec := recordOf(tb, relAcc[1].Args[0]); !(relAcc[1].Op == "field" && relAcc[1].Name == "Owner" && isRec && k == nkey) {
+				if !(relAcc[1].Op == "field" && relAcc[1].Name == "Owner" && len(relAcc[1].Args) == 1) {
+					okF = false
+				} else if k, isRec := recordOf(tb, relAcc[1].Args[0]); !(isRec && k == nkey) {
 					okF = false
 				}
 				if na[0] != relAcc[1] && !a.holdsAt(notif.In, -a.eLit(relDel), a.eqLit(na[0], relAcc[1])) {
@@ -1068,13 +1070,27 @@ func runC18(cx *CheckCtx) {
 		}
 		cx.decide(ok, "limits", "nns.safeSplitAndCheck/length", "accepts only 3 ≤ len(name) ≤ 255", "names shorter than 3 or longer than 255 bytes can be accepted", w.pos(fn.Pos()))
 		// every fragment is checked, the last one as root
-		okF := false
+		okF, okRoot := false, false
 		for _, s := range a.Sites(func(s *Site) bool { return s.Inlined && s.Callee == nnsPkg+".checkFragment" }) {
 			if s.Args[0].Op == "index" || s.Args[0].Op == "elem" {
 				okF = true
+				frs := s.Args[0].Args[0]
+				last := tb.binop(token.SUB, tb.mk("len", "", 0, frs), tb.constInt(1), intType)
+				r := s.Args[1]
+				// isRoot ⇔ index == len(fragments) − 1, with the index that selects the fragment
+				if r.Op == "bin" && r.Name == "==" && len(r.Args) == 2 && (r.Args[1] == last || r.Args[0] == last) {
+					idx := r.Args[0]
+					if idx == last {
+						idx = r.Args[1]
+					}
+					if idx.Op == "phi" && (s.Args[0].Op == "elem" || (len(s.Args[0].Args) == 2 && s.Args[0].Args[1] == idx)) {
+						okRoot = true
+					}
+				}
 			}
 		}
 		cx.decide(okF, "limits", "nns.safeSplitAndCheck/fragments", "every fragment goes through checkFragment", "fragments are not individually validated", w.pos(fn.Pos()))
+		cx.decide(okRoot, "limits", "nns.safeSplitAndCheck/root-flag", "exactly the last fragment is validated with the root rules (≤ 16 bytes, leading letter)", "the root rules (≤ 16 bytes, leading letter) are not applied to exactly the last label of every validated name: CNAME data or names with a bad last label are accepted", w.pos(fn.Pos()))
 	}
 	if fn := cx.pkgFunc(nnsPkg, "checkFragment"); fn != nil {
 		for _, root := range []bool{true, false} {
